@@ -35,6 +35,7 @@ import (
 	"strconv"
 	"strings"
 	"sync"
+	"syscall"
 	"testing"
 	"testing/synctest"
 	"time"
@@ -637,6 +638,10 @@ type c05WireCase struct {
 	Delay    time.Duration
 	Poll     time.Duration
 	WriteDur time.Duration // virtual time the sink needs for one write
+	// EnobufsAt >= 0: that sink write (0-based call index) fails once with ENOBUFS. The run must fail
+	// with that cause — or, if an implementation chooses to retry, the RTT must still be measured from
+	// the instant the probe was really handed to the network.
+	EnobufsAt int
 	Replies  map[int][]c05Reply
 	DestAt   int // 0 = the destination never answers
 }
@@ -662,6 +667,9 @@ func c05RunWire(t *testing.T, c c05WireCase, cancelAt time.Duration, flood func(
 	synctest.Test(t, func(t *testing.T) {
 		wire := newMemWire()
 		wire.blockWhenEmpty = true
+		if c.EnobufsAt >= 0 {
+			wire.faults = []wireFault{{Op: "write", K: c.EnobufsAt, Class: "enobufs"}}
+		}
 		inner, err := newDriver(c.Cfg, wire)
 		if err != nil {
 			t.Fatalf("driver construction failed: %v", err)
@@ -756,7 +764,10 @@ func c05GenWire(r *hx.RNG, variant string, late string) c05WireCase {
 		cfg.Min = r.Range(1, 4)
 		cfg.Max = cfg.Min + r.Range(3, 26)
 	}
-	c := c05WireCase{Cfg: cfg, Engine: c05EngineFor(variant), Timeout: 3 * time.Second, Delay: 50 * ms, Poll: 100 * ms, Replies: map[int][]c05Reply{}}
+	c := c05WireCase{Cfg: cfg, Engine: c05EngineFor(variant), Timeout: 3 * time.Second, Delay: 50 * ms, Poll: 100 * ms, Replies: map[int][]c05Reply{}, EnobufsAt: -1}
+	if late == "" && r.Chance(1, 12) {
+		c.EnobufsAt = r.Range(0, 6)
+	}
 	c.Stream = "wire-" + c.Engine
 	if cfg.kind() == "sack" {
 		c.Delay = 10 * ms
@@ -923,6 +934,14 @@ func c05JudgeWire(rep *hx.Report, c c05WireCase, o c05WireObs) (line string, fin
 	key := c.Cfg.oraclePrefix() + fmt.Sprint(c.Replies, c.WriteDur)
 	rep.Case(c.Stream, key, nontrivial, sample)
 	rep.Hit("variant:" + c.Cfg.Variant)
+	if c.EnobufsAt >= 0 && o.Run.Err != nil && !o.Run.TimedOut && o.Run.Panic == "" {
+		// the injected transient send failure ended the run: it must carry its cause
+		rep.Hit("enobufs:run-failed-with-cause=" + fmt.Sprint(errors.Is(o.Run.Err, syscall.ENOBUFS)))
+		if !errors.Is(o.Run.Err, syscall.ENOBUFS) {
+			violate("send-failure-cause-lost", fmt.Sprintf("a sink write failed with ENOBUFS and the run failed without that cause: %v", o.Run.Err))
+		}
+		return "", nil
+	}
 	if o.Run.TimedOut || o.Run.Panic != "" || o.Run.Err != nil {
 		violate("run-failed", fmt.Sprintf("engine run failed on a well-behaved scripted network: timed out=%v panic=%q err=%v", o.Run.TimedOut, o.Run.Panic, o.Run.Err))
 		return "", nil
